@@ -7,7 +7,7 @@ set_option linter.unusedSectionVars false
 set_option linter.unusedSimpArgs false
 set_option maxHeartbeats 2000000
 
-namespace GT
+namespace GT.Lie
 
 namespace Cx
 variable {R : Type*} [CommRing R]
@@ -34,7 +34,6 @@ def ofRealHom : R →+* Cx R where
 
 end Cx
 
-namespace Lie
 variable {K : Type*} [Field K]
 
 theorem conjTranspose_mul {ι : Type*} [Fintype ι] (M N : Matrix ι ι (Cx K)) :
@@ -172,5 +171,4 @@ theorem sl2cHermAction_form (h2 : (2 : K) ≠ 0) (M : Matrix (Fin 2) (Fin 2) (Cx
       Matrix.transpose_apply, Fintype.sum_prod_type, Fin.sum_univ_succ, Matrix.single_apply,
       finProdFinEquiv] <;> field_simp <;> ring
 
-end Lie
-end GT
+end GT.Lie
